@@ -954,7 +954,7 @@ def build_drive_calls(r, D, info, m, kinds):
         for mode, brk in modes:
             spec = {"service_module": info["module"], "client": info["service"] + ("AsyncClient" if kind == "grpc_asyncio" else "Client"),
                     "transport": kind, "method": m["snake"],
-                    "request": {"cls": f"{info['pypkg']}.types:{short(m['req_fqn'])}", "b64": dyn.Dyn.b64(rq)},
+                    "request": {"cls": f"{info.get('types_mod') or info['pypkg'] + '.types'}:{short(m['req_fqn'])}", "b64": dyn.Dyn.b64(rq)},
                     "call_kwargs": ck, "mode": mode, "item_field": item["name"], "is_map": bool(item["map"]), "attr_names": snap_names}
             if brk is not None:
                 spec["break_after"] = brk
@@ -971,7 +971,7 @@ def eval_drive(ctx, D, info, lib_i, req_b64, call, res, checks, pending):
     """Oracle + Coq terms for one driven call."""
     m, item, hist, kind, mode = call["m"], call["item"], call["hist"], call["kind"], call["mode"]
     names = call["attr_names"]
-    case = {"kind": "drive", "request_b64": req_b64, "info": {k: info.get(k) for k in ("package", "pypkg", "service", "module", "transports", "api_version", "method_settings")},
+    case = {"kind": "drive", "request_b64": req_b64, "info": {k: info.get(k) for k in ("package", "pypkg", "service", "module", "transports", "api_version", "method_settings", "ads", "types_mod")},
             "rpc": m["name"], "call": {k: v for k, v in call.items() if k not in ("observed", "_generated_ids")}}
     brk = call["spec"].get("break_after")
     label = f"lib#{lib_i} {m['name']} {kind} {mode}{'' if brk is None else '@' + str(brk)} pages={[(len(p[0]), p[1]) for p in hist['pages']]} visited={hist['visited']}"
@@ -990,7 +990,7 @@ def eval_drive(ctx, D, info, lib_i, req_b64, call, res, checks, pending):
         visited = full
     ctx.case({"lib": lib_i, "rpc": m["name"], "kind": kind, "mode": mode, "hist": hist, "sent_token": call["sent_token"]},
              nontrivial=len(visited) > 1 or any(p[0] for p in visited),
-             feature=[f"drive-{kind}", f"mode-{mode}", f"pages={len(full)}", "service-with-api_version" if info.get("api_version") else "service-without-api_version", "break-holding-page>=2" if mode == "pages-break" and brk >= 1 else "no-late-break", f"item-{m['item_kind']}", f"size-{m['size'][0]}:{short(m['size'][1])}", f"paging-fields-{m.get('presence', 'plain')}",
+             feature=[f"drive-{kind}", f"mode-{mode}", f"pages={len(full)}", "ads-templates" if info.get("ads") else "default-templates", "service-with-api_version" if info.get("api_version") else "service-without-api_version", "break-holding-page>=2" if mode == "pages-break" and brk >= 1 else "no-late-break", f"item-{m['item_kind']}", f"size-{m['size'][0]}:{short(m['size'][1])}", f"paging-fields-{m.get('presence', 'plain')}",
                       "empty-intermediate-page" if any(not p[0] for p in visited[:-1]) else "no-empty-intermediate",
                       "unreachable-extra-pages" if len(hist["pages"]) > hist["visited"] else "no-extra-pages",
                       "initial-token" if call["sent_token"] else "no-initial-token", f"timeout-{call.get('timeout_mode', 'value')}", f"request-id-{call.get('id_mode', 'none')}",
@@ -1134,7 +1134,7 @@ def retry_scenario(r, D, info, m, kinds):
             elif variant == "none":
                 ck["retry"] = "none"
             spec = {"service_module": info["module"], "client": info["service"] + ("AsyncClient" if kind == "grpc_asyncio" else "Client"),
-                    "transport": kind, "method": m["snake"], "request": {"cls": f"{info['pypkg']}.types:{short(m['req_fqn'])}", "b64": dyn.Dyn.b64(rq)},
+                    "transport": kind, "method": m["snake"], "request": {"cls": f"{info.get('types_mod') or info['pypkg'] + '.types'}:{short(m['req_fqn'])}", "b64": dyn.Dyn.b64(rq)},
                     "call_kwargs": ck, "mode": "items", "item_field": item["name"], "is_map": bool(item["map"]), "attr_names": ["next_page_token"]}
             if kind == "rest":
                 status = 409 if variant == "explicit" else 503
@@ -1152,7 +1152,7 @@ def retry_scenario(r, D, info, m, kinds):
 def eval_retry(ctx, D, info, i, b64, c, res, pending):
     m, item, variant, kind = c["m"], c["item"], c["retry"], c["kind"]
     case = {"kind": "drive-retry", "request_b64": b64, "rpc": m["name"], "pypkg": info["pypkg"], "spec": c["spec"], "variant": variant,
-            "info": {k: info.get(k) for k in ("package", "pypkg", "service", "module", "transports", "api_version", "method_settings")}}
+            "info": {k: info.get(k) for k in ("package", "pypkg", "service", "module", "transports", "api_version", "method_settings", "ads", "types_mod")}}
     ctx.case({"lib": i, "rpc": m["name"], "kind": kind, "retry": variant}, feature=[f"retry-{variant}-on-follow-up-{kind}"])
     ncalls = len(res["http_calls"] if kind == "rest" else res["grpc_calls"])
     label = f"lib#{i} {m['name']} {kind} retry={variant} (2 pages, page 2 fails once with {'ABORTED/409' if variant == 'explicit' else 'UNAVAILABLE'})"
@@ -1201,7 +1201,7 @@ def sequence_scenarios(r, D, info, m, kinds):
         for kind in kinds:
             spec = {"service_module": info["module"], "client": info["service"] + ("AsyncClient" if kind == "grpc_asyncio" else "Client"),
                     "transport": kind, "method": m["snake"],
-                    "request": {"cls": f"{info['pypkg']}.types:{short(m['req_fqn'])}", "b64": dyn.Dyn.b64(rq)},
+                    "request": {"cls": f"{info.get('types_mod') or info['pypkg'] + '.types'}:{short(m['req_fqn'])}", "b64": dyn.Dyn.b64(rq)},
                     "call_kwargs": {"timeout": 40.0}, "mode": "items", "item_field": item["name"], "is_map": bool(item["map"]),
                     "attr_names": attr_names + [item["name"]]}
             mutation = {}
@@ -1228,7 +1228,7 @@ def sequence_scenarios(r, D, info, m, kinds):
 def eval_sequence(ctx, D, info, lib_i, req_b64, call, res, checks, pending):
     m, item, kind, seq = call["m"], call["item"], call["kind"], call["sequence"]
     h1, h2 = call["hist1"], call["hist2"]
-    case = {"kind": "drive-sequence", "request_b64": req_b64, "info": {k: info.get(k) for k in ("package", "pypkg", "service", "module", "transports", "api_version", "method_settings")},
+    case = {"kind": "drive-sequence", "request_b64": req_b64, "info": {k: info.get(k) for k in ("package", "pypkg", "service", "module", "transports", "api_version", "method_settings", "ads", "types_mod")},
             "rpc": m["name"], "call": call}
     label = f"lib#{lib_i} {m['name']} {kind} sequence={seq} pages={[(len(p[0]), p[1]) for p in h1]}" + (f" then again {[(len(p[0]), p[1]) for p in h2]}" if h2 else "")
     ctx.case({"lib": lib_i, "rpc": m["name"], "kind": kind, "sequence": seq, "hist1": h1, "hist2": h2, "sent_token": call["sent_token"]},
@@ -1322,6 +1322,20 @@ def run_libraries(ctx, n, seed_tag="C07-lib", histories=2):
         req = gen.with_params(req, [req.parameter], gen.case_dir(f"c07cfg{re.sub(chr(87), '', seed_tag)}{i}"), retry=retry_config(info),
                               service_yaml=service_yaml(info))
         jobs.append((i, req, info))
+    # the ADS templates have their own pagers.py.j2: the same kind of library, generated with python-gapic-templates=ads-templates
+    # (old naming, sync gRPC client only), is driven through the same histories; T1 is pinned to the default skeleton and skipped there
+    for k in range(2 if n >= 4 else 1):
+        i = 1000 + k
+        r = env.rng(seed_tag + "-ads", k)
+        try:
+            req, info = library_api(r, "grpc")
+        except apigen.Invalid:
+            continue
+        info["ads"], info["pypkg"] = True, info["package"]
+        info["types_mod"] = info["package"] + ".types.service"       # the ads types package does not re-export the messages
+        req = gen.with_params(req, ["transport=grpc", "python-gapic-templates=ads-templates", "old-naming"],
+                              gen.case_dir(f"c07cfgads{re.sub(chr(87), '', seed_tag)}{k}"), retry=retry_config(info), service_yaml=service_yaml(info))
+        jobs.append((i, req, info))
     results = gen.pmap(lambda j: gen.run_generator(j[1]), jobs)
     cls = gen.pmap(lambda j: gen.impl("paging", [{"request_b64": apigen.req_b64(j[1])}])[0], jobs)
     checks, pending, drives = [], [], []
@@ -1330,10 +1344,13 @@ def run_libraries(ctx, n, seed_tag="C07-lib", histories=2):
             ctx.oblige(f"lib#{i}: generation succeeds", False, err[-600:], "T1")
             continue
         files = gen.files_of(res)
-        checks += t1_checks(ctx, i, info, files)
+        if not info.get("ads"):
+            checks += t1_checks(ctx, i, info, files)
         root = gen.materialize(res, gen.case_dir(f"c07lib{i}"))
         D = dyn.Dyn(req)
         kinds = [k for k, need in (("grpc", "grpc"), ("grpc_asyncio", "grpc"), ("rest", "rest")) if need in info["transports"].split("+")]
+        if info.get("ads"):
+            kinds = ["grpc"]
         calls = []
         r = env.rng(seed_tag + "-drive", i)
         for m in info["rpcs"]:
@@ -1367,7 +1384,7 @@ def run_libraries(ctx, n, seed_tag="C07-lib", histories=2):
             if len(obs) == 2 and obs["grpc"] != obs["grpc_asyncio"]:
                 c = group[0]
                 pending.append((None, f"lib#{i} {key[0]}: sync and asyncio pagers disagree on the same history: {obs}",
-                                {"kind": "drive", "request_b64": b64, "rpc": key[0], "info": {k: info.get(k) for k in ("package", "pypkg", "service", "module", "transports", "api_version", "method_settings")},
+                                {"kind": "drive", "request_b64": b64, "rpc": key[0], "info": {k: info.get(k) for k in ("package", "pypkg", "service", "module", "transports", "api_version", "method_settings", "ads", "types_mod")},
                                  "call": {k: v for k, v in c.items() if k != "observed"}}))
         gen.rm(root)
     failing, errors, nfiles = coq.eval_checks("c07lib" + re.sub(r"\W", "", seed_tag), IMPORTS, "", checks)
@@ -1408,7 +1425,7 @@ def witness_map_import(ctx):
     gen.rm(root)
     ctx.case({"witness": "map-import"}, feature=["witness-map-value-other-file"])
     c, o = calls[0], out[0]
-    case = {"kind": "drive", "request_b64": apigen.req_b64(req), "info": {k: info.get(k) for k in ("package", "pypkg", "service", "module", "transports", "api_version", "method_settings")},
+    case = {"kind": "drive", "request_b64": apigen.req_b64(req), "info": {k: info.get(k) for k in ("package", "pypkg", "service", "module", "transports", "api_version", "method_settings", "ads", "types_mod")},
             "rpc": "ListBooks", "call": c}
     if not o.get("ok"):
         err = o.get("error", {})
